@@ -114,6 +114,29 @@ fn run_case(seed: u64, idx: u64, _tier: Tier, out: &mut CaseOut) {
         doc.insert(at, ast::El::with(*rng.pick(&["p", "div", "blockquote"]), kids).node());
         out.inc("docs_with_wide_only_words");
     }
+    if rng.chance(1, 4) {
+        // a prefixed block holding a few very short words (its minimum width is decided
+        // by the words, not by min_wrap_width)
+        let n = rng.range(2, 4);
+        let mut kids = Vec::new();
+        for i in 0..n {
+            if i > 0 {
+                kids.push(ast::Node::Space);
+            }
+            let len = rng.range(1, 2);
+            let w: String = (0..len).map(|_| (b'a' + rng.below(26) as u8) as char).collect();
+            kids.push(ast::Node::Word(w));
+        }
+        let el = match rng.below(4) {
+            0 => ast::El::with("blockquote", kids),
+            1 => ast::El::with("ul", vec![ast::El::with("li", kids).node()]),
+            2 => ast::El::with("h3", kids),
+            _ => ast::El::with("ol", vec![ast::El::with("li", kids).node()]),
+        };
+        let at = rng.below(doc.len() + 1);
+        doc.insert(at, el.node());
+        out.inc("docs_with_short_word_blocks");
+    }
     if ast::has_tag(&doc, "s") || ast::has_tag(&doc, "del") {
         out.inc("docs_with_strikeout");
     }
@@ -325,8 +348,8 @@ fn report(
     }).unwrap_or(false);
     if empty_container {
         out.violate(
-            "ws-dependent:white-space-inside-block-without-content",
-            format!("rewrite '{}' changes the rendering at width {} only through white space inside a block element that has nothing to render", kind, w),
+            "ws-dependent:white-space-next-to-block-without-content",
+            format!("rewrite '{}' changes the rendering at width {} only through white space inside or next to a block element that has nothing to render", kind, w),
             json!({"canonical": String::from_utf8_lossy(base), "rewritten": String::from_utf8_lossy(variant),
                    "width": w, "config": cfg.describe(), "output_canonical": a, "output_rewritten": b}),
         );
